@@ -90,6 +90,78 @@ theorem no_leading_header (m : Mode) (l : List Nat) (hne : l ≠ []) (hh : l.hea
 theorem no_records : rdFinish ({} : RdState) = .error ([], .empty) := by
   simp [rdFinish]
 
+/-- one single header and nothing after it (nothing emitted, empty buffer) is "no records" too -/
+theorem no_records_single_header (s : RdState) (hb : s.buf = []) (hc : s.counter = 0) :
+    rdFinish s = .error (s.out, .empty) := by
+  simp [rdFinish, hb, hc]
+
+/-- the end of the stream in a state with at least one record emitted: the pending record is checked against the
+stored width, whatever its length -/
+theorem finish_checked (s : RdState) (hc : 0 < s.counter) (hw : s.buf.length ≠ s.width) :
+    rdFinish s = .error (s.out, .diffLen) := by
+  simp [rdFinish, hc, hw]
+
+/-- **C16.last_record_checked** — the LAST record is handled like every other one: for every reader, every text and
+the state `s` reached after its last line, if at least one record was emitted before (`0 < s.counter`) and the length
+of the pending record differs from the width of the earlier records, the reader returns "different length sequences"
+(after the records delivered so far) - whatever that length is, 0 included (a last header without a sequence). -/
+theorem last_record_checked (m : Mode) (text : List Nat) (s : RdState)
+    (hl : rdLines m {} (splitLines text) = .ok s) (hc : 0 < s.counter) (hw : s.buf.length ≠ s.width) :
+    readFasta m text = .error (s.out, .diffLen) := by
+  unfold readFasta
+  rw [hl]
+  exact finish_checked s hc hw
+
+/-- the same for the list reader (ReadEncodeAlignmentToList, and through it the FASTA section of gff.ReadGFF) -/
+theorem last_record_checked_list (hard : Bool) (text : List Nat) (s : RdState)
+    (hl : rdLines (.encoded hard) {} (splitLines text) = .ok s) (hc : 0 < s.counter) (hw : s.buf.length ≠ s.width) :
+    readFastaList hard text = .error .diffLen := by
+  unfold readFastaList
+  rw [last_record_checked (.encoded hard) text s hl hc hw]
+
+/-- the special case the repair is about: the last header is followed by no sequence (length 0) and the earlier
+records are not empty -/
+theorem last_header_without_sequence (m : Mode) (text : List Nat) (s : RdState)
+    (hl : rdLines m {} (splitLines text) = .ok s) (hc : 0 < s.counter) (hb : s.buf = []) (hw : 0 < s.width) :
+    readFasta m text = .error (s.out, .diffLen) :=
+  last_record_checked m text s hl hc (by rw [hb]; simp; omega)
+
+/-- the error class of a result -/
+def errClass : Except (List FaRec × RdErr) (List FaRec) → Option RdErr
+  | .error (_, e) => some e
+  | .ok _ => none
+
+/-- **C16.old_finish_dropped_last** — on the text ">a\nACGT\n>b\n" the loop end before the repair (`rdFinishOld`: flush
+only a non-empty buffer) accepted the file with ONE record, record b silently missing; the repaired reader refuses it
+with "different length sequences", in every mode -/
+theorem old_finish_dropped_last :
+    (((rdLines (.encoded false) {} (splitLines (stringToBytes ">a\nACGT\n>b\n"))).bind rdFinishOld).toOption.map
+      fun rs => rs.map fun r => (r.id, r.seq, r.idx)) = some [([97], [136, 40, 72, 24], 0)] ∧
+    errClass (readFasta (.encoded false) (stringToBytes ">a\nACGT\n>b\n")) = some .diffLen ∧
+    errClass (readFasta (.encoded true) (stringToBytes ">a\nACGT\n>b\n")) = some .diffLen ∧
+    errClass (readFasta .plain (stringToBytes ">a\nACGT\n>b\n")) = some .diffLen := by
+  refine ⟨by decide +kernel, by decide +kernel, by decide +kernel, by decide +kernel⟩
+
+/-- what the old loop end did in the remaining case: the pending empty record was dropped and the records emitted so
+far were returned as success -/
+theorem finish_old_dropped (s : RdState) (hb : s.buf = []) (hc : 0 < s.counter) : rdFinishOld s = .ok s.out := by
+  have : s.counter ≠ 0 := by omega
+  simp [rdFinishOld, hb, this]
+
+/-- the two loop ends differ in nothing else: whenever the old one refused, or the pending buffer is not empty, or
+nothing was emitted yet, they give the same result -/
+theorem finish_eq_old (s : RdState) (h : s.buf ≠ [] ∨ s.counter = 0) : rdFinish s = rdFinishOld s := by
+  unfold rdFinish rdFinishOld
+  rcases h with h | h
+  · have : s.buf.length > 0 := by
+      cases hb : s.buf with
+      | nil => exact absurd hb h
+      | cons _ _ => simp
+    simp [this]
+  · by_cases hb : s.buf.length > 0
+    · simp [hb]
+    · simp [hb, h]
+
 /-- non-vacuity: a two-record file in CRLF layout with a wrapped, mixed-case second record -/
 example : (readFasta (.encoded false) (stringToBytes ">a x\r\nAC\r\n>b\r\na\r\n\r\nc")).toOption.map
     (fun rs => rs.map (fun r => (r.id, r.seq, r.idx))) = some [([97], [136, 40], 0), ([98], [136, 40], 1)] := by
@@ -116,13 +188,21 @@ theorem control_bytes_rejected : (enc false 10 = 0 ∧ enc false 13 = 0 ∧ enc 
 
 /-- a file of records as laid out on disk, well-formed for an encoded reader: every header has an ID and no
     line-end bytes; every sequence line is non-empty and over the accepted alphabet; all sequences have the same
-    non-zero length -/
+    length, which is non-zero unless there are at least two records (records without any sequence line: since the
+    last record is flushed like every other one, such a file is read as records of width 0; one single header
+    without a sequence is "no records") -/
 structure WFFile (hard : Bool) (W : Nat) (recs : List LRec) : Prop where
-  wpos : 0 < W
+  wpos : 0 < W ∨ 2 ≤ recs.length
   ids : ∀ r ∈ recs, firstField r.desc = some r.id
   hdr : ∀ r ∈ recs, CleanLine r.desc
   chunks : ∀ r ∈ recs, ∀ l ∈ r.chunks, l ≠ [] ∧ ∀ b ∈ l, enc hard b ≠ 0
   width : ∀ r ∈ recs, r.seq.length = W
+
+theorem wpos_cases (W : Nat) (r0 : LRec) (rs : List LRec) (hw0 : r0.seq.length = W)
+    (h : 0 < W ∨ 2 ≤ (r0 :: rs).length) : 0 < r0.seq.length ∨ rs ≠ [] := by
+  rcases h with h | h
+  · left; omega
+  · right; intro e; subst e; simp at h
 
 theorem accepted_not_control (hard : Bool) (b : Nat) (h : enc hard b ≠ 0) : b ≠ 10 ∧ b ≠ 13 ∧ b ≠ 62 := by
   have hc := control_bytes_rejected
@@ -164,8 +244,8 @@ theorem lines_clean (hard : Bool) (W : Nat) (recs : List LRec) (hf : WFFile hard
     have hmem : (13 : Nat) ∈ l := List.mem_of_getLast? hlast
     exact (accepted_not_control hard 13 (hacc 13 hmem)).2.1 rfl
 
-/-- **C16.layout_independent** — for every non-empty list of records with non-empty accepted sequences of equal
-length, written under ANY layout (any chunking of each sequence into lines, LF or CRLF, with or without a final
+/-- **C16.layout_independent** — for every non-empty list of records with accepted sequences of equal length (non-empty,
+or all empty when there are at least two records), written under ANY layout (any chunking of each sequence into lines, LF or CRLF, with or without a final
 newline), the encoded reader returns exactly those records: ID = the first white-space-delimited token of the
 header, description = the whole header, sequence = the encoded concatenation of its lines, index = position -/
 theorem layout_independent (hard crlf finalEol : Bool) (W : Nat) (r0 : LRec) (rs : List LRec) (hf : WFFile hard W (r0 :: rs)) :
@@ -175,7 +255,7 @@ theorem layout_independent (hard crlf finalEol : Bool) (W : Nat) (r0 : LRec) (rs
   have h0 := wfRec_of_file hard W _ hf r0 (by simp)
   have hrs : ∀ r ∈ rs, WFRec (.encoded hard) (enc hard) W r := fun r hr => wfRec_of_file hard W _ hf r (by simp [hr])
   rw [← hw0] at h0 hrs
-  exact rdLines_file (.encoded hard) (enc hard) r0 rs (by rw [hw0]; exact hf.wpos) h0 hrs
+  exact rdLines_file (.encoded hard) (enc hard) r0 rs (wpos_cases W r0 rs hw0 hf.wpos) h0 hrs
 
 /-- what is returned does not depend on the layout at all: two layouts of the same records read the same -/
 theorem layout_irrelevant (hard c1 f1 c2 f2 : Bool) (W : Nat) (r0 r0' : LRec) (rs rs' : List LRec)
@@ -206,7 +286,7 @@ def exFile : List LRec :=
   [⟨[97], [97, 32, 120], [[65, 67, 71]]⟩, ⟨[98], [98], [[97], [78, 45]]⟩]
 
 theorem exFile_wf : WFFile false 3 exFile := by
-  refine ⟨by decide, ?_, ?_, ?_, ?_⟩
+  refine ⟨Or.inl (by decide), ?_, ?_, ?_, ?_⟩
   · intro r hr
     simp only [exFile, List.mem_cons, List.mem_nil_iff, or_false] at hr
     rcases hr with rfl | rfl <;> decide
@@ -230,6 +310,24 @@ theorem exFile_wf : WFFile false 3 exFile := by
 example : readFasta (.encoded false) (renderText true false (renderLines exFile)) = .ok (recsFrom (enc false) exFile 0) :=
   layout_independent false true false 3 _ _ exFile_wf
 
+/-- non-vacuity of the width-0 case: two headers without any sequence line are two records of width 0 (before the repair
+of the loop end the second one was dropped) -/
+example : readFasta (.encoded false) (renderText false true (renderLines [⟨[97], [97], []⟩, ⟨[98], [98, 32, 120], []⟩])) =
+    .ok (recsFrom (enc false) [⟨[97], [97], []⟩, ⟨[98], [98, 32, 120], []⟩] 0) := by
+  refine layout_independent false false true 0 _ _ ⟨Or.inr (by decide), ?_, ?_, ?_, ?_⟩
+  · intro r hr
+    simp only [List.mem_cons, List.mem_nil_iff, or_false] at hr
+    rcases hr with rfl | rfl <;> decide
+  · intro r hr
+    simp only [List.mem_cons, List.mem_nil_iff, or_false] at hr
+    rcases hr with rfl | rfl <;> (unfold CleanLine; decide)
+  · intro r hr l hl
+    simp only [List.mem_cons, List.mem_nil_iff, or_false] at hr
+    rcases hr with rfl | rfl <;> simp at hl
+  · intro r hr
+    simp only [List.mem_cons, List.mem_nil_iff, or_false] at hr
+    rcases hr with rfl | rfl <;> decide
+
 end Gofasta.Props.C16
 
 namespace Gofasta.Props.C16
@@ -238,7 +336,7 @@ open Gofasta Base Model Spec Lemmas
 /-- the same file structure for the plain-text reader (it performs no symbol check: any non-empty line that does
     not start with '>' and contains no line-end byte is a sequence line) -/
 structure WFFilePlain (W : Nat) (recs : List LRec) : Prop where
-  wpos : 0 < W
+  wpos : 0 < W ∨ 2 ≤ recs.length
   ids : ∀ r ∈ recs, firstField r.desc = some r.id
   hdr : ∀ r ∈ recs, CleanLine r.desc
   chunks : ∀ r ∈ recs, ∀ l ∈ r.chunks, SeqLine l ∧ CleanLine l
@@ -275,7 +373,7 @@ theorem layout_independent_plain (crlf finalEol : Bool) (W : Nat) (r0 : LRec) (r
   have h0 := mk r0 (by simp)
   have hrs : ∀ r ∈ rs, WFRec .plain asciiUpper W r := fun r hr => mk r (by simp [hr])
   rw [← hw0] at h0 hrs
-  exact rdLines_file .plain asciiUpper r0 rs (by rw [hw0]; exact hf.wpos) h0 hrs
+  exact rdLines_file .plain asciiUpper r0 rs (wpos_cases W r0 rs hw0 hf.wpos) h0 hrs
 
 /-- **C16.readers_agree** — on a file that the encoded reader accepts, decoding the encoded records gives the records
 of the plain reader: same IDs, descriptions, indices, and upper-cased sequences -/
